@@ -1,5 +1,5 @@
 # C07 - undefined-variable and unused-local warnings agree with the actual bindings (DESIGN 5, binder family)
-import re
+import random, re
 import vlib
 from vlib import Leg, hexs
 
@@ -23,6 +23,10 @@ class Prog:
         self.other = other        # globals other files define
         self.lines = []
         self.budget = size
+        # secondary stream (seeded from the state of the primary one WITHOUT drawing from it): shapes added to the
+        # generator later take their decisions from it, so that the programs of the primary stream stay what they were
+        st = rng.getstate()[1]
+        self.r2 = random.Random(hash((st[0], st[1], st[2], st[-1])) & 0xFFFFFFFF)
 
     # ---------------------------------------------------------------- names
     def read_name(self, scope):
@@ -164,6 +168,22 @@ class Prog:
                         toks += [names[j], "or", r.choice(["nil", "1"])]
                     else:
                         toks += self.exp(scope, 2, vararg)
+                if ne == nn and self.r2.random() < 0.12:
+                    # surplus initialisers (all analysed since fixes/C20-local-surplus.diff; before it only the first
+                    # one): a local read only there is used, an undefined global there is reported.  Secondary stream
+                    saved, self.r = self.r, self.r2
+                    try:
+                        for _ in range(self.r.choice([1, 2, 2, 3])):
+                            toks.append(",")
+                            m = self.r.random()
+                            if scope and m < 0.4:
+                                toks.append(self.r.choice(scope))
+                            elif m < 0.55:
+                                toks.append(self.r.choice(UNDEF))
+                            else:
+                                toks += self.exp(scope, 1, vararg)
+                    finally:
+                        self.r = saved
             self.emit(toks)
             scope.extend(names)
         elif k < 0.30:                                   # local function
